@@ -598,6 +598,9 @@ func genRouter(profile string) func(rng *rand.Rand, n int, tier string, emit fun
 					if rng.Intn(5) == 0 {
 						m = methodNames[rng.Intn(len(methodNames))]
 					}
+					if rng.Intn(15) == 0 { // method tokens are case-sensitive: "get" is an unknown method
+						m = []string{"get", "Get", "post", "head"}[rng.Intn(4)]
+					}
 					if profile == "C07" {
 						if rng.Intn(3) == 0 {
 							p = hostileBytes(rng)
